@@ -35,8 +35,9 @@ RULE = ("bfs over add/remove histories on a real NoteContainer in lock-step with
 ASSUMPTIONS = [
     "when a note of an already present pitch is added the statement only fixes the pitches: the surviving spelling may be the "
     "old or the new one (the model adopts whichever the library shows); anything else is a violation",
-    "membership is probed with Note objects only; equality is judged only against containers with identical (name, octave) "
-    "content (must be equal) or a different pitch set (must be unequal), never against enharmonic respellings",
+    "membership is probed with Note objects only; equality is judged against containers with identical (name, octave) content and "
+    "against containers holding the same pitches with one note respelled enharmonically (both must be equal: the content is the "
+    "pitches), and against containers with a different pitch set (must be unequal)",
     "the unique-name list is compared as a duplicate-free collection (order not required)",
     "'the consonance predicates (true exactly when every pair satisfies the pairwise predicate)' is applied to is_consonant, "
     "is_perfect_consonant and is_imperfect_consonant on ordered low->high pairs; for is_dissonant both 'every pair is dissonant' "
@@ -394,6 +395,23 @@ def check_content(nc, ref, S, where=""):
         S.problem(where + "== container of identical notes", True, False)
     if not (same == nc):
         S.problem(where + "container of identical notes == this", True, False)
+    # the same pitches under another spelling (C#-4 for Db-4, B#-3 for C-4): still the same content
+    SHARPISH = ("B#", "C#", "D", "D#", "E", "E#", "F#", "G", "G#", "A", "A#", "B")
+    FLATTISH = ("C", "Db", "D", "Eb", "Fb", "F", "Gb", "G", "Ab", "A", "Bb", "Cb")
+    for i, (nm, o) in enumerate(ref.notes):
+        q = R.pitch((nm, o))
+        for table in (SHARPISH, FLATTISH):
+            alt = table[q % 12]
+            if alt == nm:
+                continue
+            ao = q // 12 + (1 if alt == "Cb" else 0) - (1 if alt == "B#" else 0)
+            if R.pitch((alt, ao)) != q:
+                raise engine.HarnessError("respelling helper")
+            twin = container_of(ref.notes[:i] + [(alt, ao)] + ref.notes[i + 1:])
+            if not (nc == twin) or (nc != twin) or not (twin == nc):
+                S.problem(where + "== container with the same pitches, note %d respelled as %s-%d" % (i, alt, ao), True, False)
+            S.count("respelled_equalities_checked")
+            break
     variants = []
     if ref.notes:
         variants.append(ref.notes[:-1])
